@@ -216,7 +216,6 @@ def applicable(rec):
     o = rec.get("opts", {})
     if o.get("do_not_copy") is True or o.get("frozen"):
         return False
-    # frozen by inheritance exists for plain subclasses only; decorated subclasses re-state frozen
     return True
 
 
@@ -252,6 +251,13 @@ def main(run):
                       "recF": {"name": "LookupF" + kT, "attrs": [{"kind": kF, "default": "none" if kT == "leaf" else "mut", "lookup": True},
                                                              {"kind": "int", "default": "lit"}], "opts": {"leaf_is_frozen": True, "frozen": True}},
                       "depth": d, "tier": run.tier, "max_states": 600})
+    # frozen-ness inherited by a decorated subclass that does not restate it
+    for base in (G.composite("FrozenInherited", [("int", "lit"), ("nums", "mut"), ("leaf", "mut")], inherit="spec_sub_add"),
+                 G.single("nums", "mut", inherit="spec_sub_redefault")):
+        recF = frozen_twin(base)
+        recF["opts"]["sub_inherits_policy"] = True
+        recF["name"] = base["name"] + "_FI"
+        tasks.append({"rec": base, "recF": recF, "depth": d, "tier": run.tier, "max_states": 600})
     for rec in alias_records():
         tasks.append({"rec": rec, "depth": d, "tier": run.tier, "max_states": 600, "module": "props.c07", "prop": PROP})
     for kT, kF, nm in (("leaf", "fleaf", "ParentLeaf"), ("kids", "fkids", "ParentKids")):
